@@ -25,6 +25,8 @@ type Instance struct {
 	Data []byte
 }
 
+var wide16 = []uint16{0xffff, 0xfffe, 0xfffd, 0xfffc, 0x8000, 0x7fff, 0x0000, 0x0001}
+var wide32 = []uint32{0xffffffff, 0xfffffffe, 0xfffffffd, 0xfffffffc, 0x80000000, 0x7fffffff}
 var boundary = []byte{0x00, 0x01, 0x02, 0x03, 0x05, 0x7f, 0x80, 0xff}
 
 // Collect returns the deduplicated instances (at most maxLen bytes each, at most perType per struct type, 0 = all).
@@ -182,6 +184,8 @@ func Collect(maxLen, perType int) []Instance {
 //   - every single byte set to each of 8 boundary values;
 //   - every pair of bytes within distance 3 inside the first and the last 6 bytes set to every combination of them;
 //   - the big-endian integer of width 1..4 at every position changed by -3..+3 (length fields one off);
+//   - the 16- and 32-bit word at every position set to the extremes of its width (all ones and the three values below,
+//     the sign boundary, 0, 1): length fields whose rounding or summing wraps in the field's own width;
 //   - "closed" elements: the byte at every position set to 0..3 and the input cut right behind that many
 //     further bytes (a last element with a tiny length), each also with the last three bytes set to the
 //     boundary values.
@@ -230,6 +234,20 @@ func Variants(data []byte, fn func([]byte)) {
 					buf[i+k] = byte(y)
 					y >>= 8
 				}
+				fn(buf)
+			}
+		}
+	}
+	for i := 0; i+2 <= L; i++ {
+		for _, x := range wide16 {
+			reset()
+			buf[i], buf[i+1] = byte(x>>8), byte(x)
+			fn(buf)
+		}
+		if i+4 <= L {
+			for _, x := range wide32 {
+				reset()
+				buf[i], buf[i+1], buf[i+2], buf[i+3] = byte(x>>24), byte(x>>16), byte(x>>8), byte(x)
 				fn(buf)
 			}
 		}
